@@ -16,8 +16,9 @@ import Melda.Doc
 import Melda.Props.C10
 import Melda.Props.C04
 import Melda.Props.JsonRT
+import Melda.Props.Depth
 namespace Melda.Props.C11
-open Melda Melda.PState Melda.Props.Proto Melda.Props.JsonRT
+open Melda Melda.PState Melda.Props.Proto Melda.Props.JsonRT Melda.Props.Depth
 
 /-- the JSON record of one change -/
 def chgJson (c : Change) : JVal := match c.parent with
@@ -64,6 +65,38 @@ theorem canon_toJson (b : Block) (hi : ∀ i, b.info = some i → Canon i) : Can
     first
     | simp [Canon, CanonO, SortedKeys, strLt, canonL_chgs, canonL_strs, canonL_map_str, hi _ h2]
     | simp [Canon, CanonO, SortedKeys, strLt, canonL_chgs, canonL_strs, canonL_map_str]
+
+/-- the block object is one level deeper than its information member (and never flatter than 3): with
+    information the commit guard accepts it stays far below the parser's recursion limit -/
+theorem toJson_depth_le (b : Block) (n : Nat) (h2 : 2 ≤ n) (hi : ∀ i, b.info = some i → i.depth ≤ n) :
+    b.toJson.depth ≤ n + 1 := by
+  rw [toJson_eq]
+  simp only [JVal.depth, depthO_append, Nat.add_le_add_iff_right, Nat.max_le]
+  have hc : ∀ l : List Change, JVal.depthL (l.map chgJson) ≤ 1 := by
+    intro l
+    rw [depthL_le_iff]
+    intro v hv
+    obtain ⟨c, _, rfl⟩ := List.mem_map.mp hv
+    unfold chgJson; split <;> simp [JVal.depth, JVal.depthL]
+  refine ⟨⟨⟨?_, ?_⟩, ?_⟩, ?_⟩
+  · unfold cPart; split
+    · simp [JVal.depthO]
+    · have := hc b.changes; simp only [JVal.depthO, JVal.depth]; omega
+  · unfold iPart; split
+    · next i h => have := hi i h; simp only [JVal.depthO]; omega
+    · simp [JVal.depthO]
+  · unfold kPart; split
+    · simp [JVal.depthO]
+    · simp only [JVal.depthO, JVal.depth, depthL_strs]; omega
+  · unfold pPart; split
+    · simp [JVal.depthO]
+    · simp only [JVal.depthO, JVal.depth, depthL_map_str]; omega
+
+theorem toJson_below_limit (b : Block) (hi : ∀ i, b.info = some i → i.depth ≤ MAX_NESTING_DEPTH) :
+    b.toJson.depth < RECURSION_LIMIT := by
+  have := toJson_depth_le b MAX_NESTING_DEPTH (by decide) hi
+  simp only [MAX_NESTING_DEPTH, RECURSION_LIMIT] at *
+  omega
 
 /-! ### Reading the members back -/
 
@@ -452,20 +485,22 @@ theorem toJson_id (b : Block) (id : BlockId) : ({ b with id := id } : Block).toJ
     `b` whose information member is canonical JSON, `id.digest` is the hash of those bytes and `id` obeys
     the index rule, then `fetchBlock` hands out `b` (under `id`), member for member. -/
 theorem fetch_toJson {H : Bytes → Str} {kv : KVSpec} {b : Block} (hb : BlockOK H b)
-    (hcan : ∀ i, b.info = some i → Canon i) (id : BlockId)
+    (hcan : ∀ i, b.info = some i → Canon i) (hdep : ∀ i, b.info = some i → i.depth ≤ MAX_NESTING_DEPTH)
+    (id : BlockId)
     (hidx : id.index = nextIndex b.parents) (hdig : id.digest = H b.toJson.renderBytes)
     (hr : kv.read id.key = some b.toJson.renderBytes) :
     fetchBlock H kv id = some { b with id := id } := by
   unfold fetchBlock
   rw [hr]
-  simp only [hdig, ne_eq, not_true_eq_false, if_false, parseJsonBytes_renderBytes _ (canon_toJson b hcan)]
+  simp only [hdig, ne_eq, not_true_eq_false, if_false, parseJsonBytes_renderBytes _ (canon_toJson b hcan) (toJson_below_limit b hdep)]
   rw [toJson_eq']
   exact loadRawDelta_objOf hb id hidx
 
 /-- whatever `fetchBlock` makes of the bytes of `b` (if anything), its pack list is the pack list of `b`:
     needs only that the bytes parse back (canonical information member) -/
 theorem fetch_toJson_packs {H : Bytes → Str} {kv : KVSpec} {b b' : Block}
-    (hcan : ∀ i, b.info = some i → Canon i) (hs : SortedBy strLt b.packs) (id : BlockId)
+    (hcan : ∀ i, b.info = some i → Canon i) (hdep : ∀ i, b.info = some i → i.depth ≤ MAX_NESTING_DEPTH)
+    (hs : SortedBy strLt b.packs) (id : BlockId)
     (hr : kv.read id.key = some b.toJson.renderBytes) (hf : fetchBlock H kv id = some b') :
     b'.packs = b.packs := by
   unfold fetchBlock at hf
@@ -473,7 +508,7 @@ theorem fetch_toJson_packs {H : Bytes → Str} {kv : KVSpec} {b b' : Block}
   simp only at hf
   split at hf
   · cases hf
-  · rw [parseJsonBytes_renderBytes _ (canon_toJson b hcan), toJson_eq'] at hf
+  · rw [parseJsonBytes_renderBytes _ (canon_toJson b hcan) (toJson_below_limit b hdep), toJson_eq'] at hf
     have := (loadRawDelta_members hf).2.2.1
     rw [packsOf_objOf hs] at this
     exact (Option.some.inj this).symm
@@ -628,6 +663,7 @@ theorem commit_blockOK (hout : out = DState.commitWrites H st info objOrder chgO
     information, all equal. -/
 theorem block_roundtrip (hout : out = DState.commitWrites H st info objOrder chgOrder)
     (hinfo : ∀ i, info = some i → Canon i ∧ ∃ o, i = .obj o)
+    (hdep : ∀ i, info = some i → i.depth ≤ MAX_NESTING_DEPTH)
     (hanc : ∀ p ∈ st.p.anchors, C10.Canonical p)
     (hchg : ∀ c ∈ chgOrder, ChangeOK H c)
     {kv : KVSpec} (hr : kv.read out.block.id.key = some (blockBytes out)) :
@@ -636,16 +672,17 @@ theorem block_roundtrip (hout : out = DState.commitWrites H st info objOrder chg
   have hn := commit_writes_names hout
   have hid := commit_block_id hout
   have := fetch_toJson (kv := kv) hb (fun i hi => (hinfo i (by rw [← (commit_block_members hout).2.2.2]; exact hi)).1)
+    (fun i hi => hdep i (by rw [← (commit_block_members hout).2.2.2]; exact hi))
     out.block.id hn.2.2.2 (by rw [hid]; rfl) hr
   rw [this]
 
 /-- the pack list alone needs only a canonical information member -/
 theorem block_roundtrip_packs (hout : out = DState.commitWrites H st info objOrder chgOrder)
-    (hinfo : ∀ i, info = some i → Canon i)
+    (hinfo : ∀ i, info = some i → Canon i) (hdep : ∀ i, info = some i → i.depth ≤ MAX_NESTING_DEPTH)
     {kv : KVSpec} (hr : kv.read out.block.id.key = some (blockBytes out)) {b' : Block}
     (hf : fetchBlock H kv out.block.id = some b') : b'.packs = out.block.packs := by
   obtain ⟨_, h2, _, h4⟩ := commit_block_members hout
-  refine fetch_toJson_packs (fun i hi => hinfo i (by rw [← h4]; exact hi)) ?_ out.block.id hr hf
+  refine fetch_toJson_packs (fun i hi => hinfo i (by rw [← h4]; exact hi)) (fun i hi => hdep i (by rw [← h4]; exact hi)) ?_ out.block.id hr hf
   rw [h2]; cases out.packName <;> simp [SortedBy]
 
 end Commit
@@ -736,8 +773,9 @@ example : outA.block.parents = [⟨1, "h2".toList⟩] ∧ outA.block.packs = ["h
 
 /-- `block_roundtrip` applies to this commit: after the writes, the block reads back whole -/
 example : fetchBlock Hlen kvA outA.block.id = some outA.block := by
-  refine block_roundtrip (H := Hlen) (st := stA) rfl ?_ (by decide +kernel) ?_ ?_
+  refine block_roundtrip (H := Hlen) (st := stA) rfl ?_ ?_ (by decide +kernel) ?_ ?_
   · intro i hi; cases hi; exact ⟨by simp [infoA, Canon, CanonO, SortedKeys], _, rfl⟩
+  · intro i hi; cases hi; decide
   · intro c hc
     simp only [List.mem_cons, List.mem_nil_iff, or_false] at hc
     rcases hc with rfl | rfl
